@@ -403,7 +403,7 @@ def main(ctx, prop):
                     failing.append(dict(what=f['what'], replay=dict(f['replay'], property=prop), finding=None, key='vpn-refused'))
             breaks += vp['breaks']
             extra['asa_crypto_cases'] = vp['stats']
-            # ASA tunnel-groups named by the peer address (IPv4 / IPv6), their group-policies and vpn-filter ACLs on Cisco/Tunnel.v
+            # ASA tunnel-groups named by the peer address (IPv4 / IPv6), users, their group-policies, filter / split-tunnel ACLs and address pools on Cisco/Tunnel.v
             from vlib import asatunnel
             tp = asatunnel.family(ctx, nv, resume=({'C10': 12}.get(prop, 0) if q == 0 else {'C10': 300}.get(prop, 0)))
             for f in tp[key]:
@@ -421,7 +421,8 @@ def main(ctx, prop):
         'repository\'s comments; real devices are not available)',
         'the harness parses the printed script back into device commands (vlib/cisco.py parse_cmd); an unknown command counts as refused',
         'ASA crypto maps with crypto ACLs, transform-sets and ipsec-proposals are executed on a separate device model (Cisco/Vpn.v, no theorem); '
-        'tunnel-groups named by the peer address with their group-policies and vpn-filter ACLs on a third device model (Cisco/Tunnel.v; lemmas only: oracle = equality of the '
-        'expanded tunnel-groups, prefix states); users, pools, certificate maps, tunnel-group-maps and webvpn are not generated (modelled: no; verified: no)',
+        'tunnel-groups named by the peer address and users (username NAME nopassword / attributes) with the group-policies they reference and the ACLs (vpn-filter, '
+        'split-tunnel-network-list) and address pools of those on a third device model (Cisco/Tunnel.v; lemmas only: oracle = equality of the expanded objects, prefix states, '
+        'frame of a sub-mode line, references only to existing objects); certificate maps, tunnel-group-maps, named (non-address) tunnel-groups and webvpn are not generated (modelled: no; verified: no)',
     ]
     return C.finish(ctx, failing, breaks, cov, assumptions)
